@@ -633,9 +633,31 @@ fn c04_gen_b(seed: u64, run: u64, thorough: bool) -> Plan {
             }
         }
     }
+    // a quarter of the runs: once the link is fair, one more swept packet is handed over and the
+    // application asks for a graceful disconnect at once - the packet must still arrive whole
+    if r.chance(0.25) {
+        let clients: Vec<(usize, u64)> = plan.endpoints.iter().enumerate().filter_map(|(i, e)| match &e.kind {
+            EndpointKind::Client { cfg, .. } => Some((i, cfg.max_packet_size)),
+            _ => None,
+        }).collect();
+        for (c, c_pkt) in clients {
+            let len = (swept as u64).min(c_pkt).min(s_alloc).max(12) as u32;
+            let t = heal + r.range(500_000, 3_000_000);
+            plan.push(t, 0x4000_0000 + tag, Op::Send { ep: c, to: None, ch: r.below(4) as u8, mode: MODE_RELIABLE, len, tag });
+            tag += 1;
+            plan.push(t + 1, 0x6000_0000, Op::Disconnect { ep: c, to: None });
+        }
+    }
     plan.params.insert("swept_len".into(), swept as f64);
     plan.sort();
     plan
+}
+fn c04_oracles_b(plan: &Plan) -> Vec<Box<dyn Oracle>> {
+    let mut v = c04_oracles(plan);
+    if plan.timeline.iter().any(|t| matches!(t.op, Op::Disconnect { .. })) {
+        v.push(Box::new(DisconnectOracle::new("C04")));
+    }
+    v
 }
 fn c04_oracles(plan: &Plan) -> Vec<Box<dyn Oracle>> {
     with_states(vec![Box::new(TransportOracle::new("C04", TransportClauses { order: true, frame_size: true, reliable_live: true, ..Default::default() }, plan))])
@@ -650,8 +672,8 @@ pub fn c04() -> CheckDef {
         families: vec![
             Family { name: "a_lengths", world: "A", weight: 1, gen: c04_gen_lengths, oracles: c04_oracles, adversary: None, keep_workload: false, custom: None,
                 what: "payload length swept over {0,1,2,11..13,63..65,255..257, k*1448-2..k*1448+2 for k=1..8,16,45, 1 MB} by run index; fragments permuted, duplicated, partially lost and resent, interleaved with other packets, flush budgets that cut packets; then a clean link until everything Reliable has arrived" },
-            Family { name: "b_lengths", world: "B", weight: 1, gen: c04_gen_b, oracles: c04_oracles, adversary: None, keep_workload: false, custom: None,
-                what: "the same length sweep through real Client/Server (both directions, several clients), bounded by the configured max_packet_size / max_receive_alloc" },
+            Family { name: "b_lengths", world: "B", weight: 1, gen: c04_gen_b, oracles: c04_oracles_b, adversary: None, keep_workload: false, custom: None,
+                what: "the same length sweep through real Client/Server (both directions, several clients), bounded by the configured max_packet_size / max_receive_alloc; in a quarter of the runs the last swept packet is followed at once by a graceful disconnect() and must still arrive whole before the peer sees Disconnect" },
             Family { name: "a_rewrite", world: "A", weight: 1, gen: c04_gen_rewrite, oracles: c04_oracles, adversary: Some(c04_adv), keep_workload: true, custom: None,
                 what: "same sweep, plus a hostile middlebox that appends to genuine frames a forged fragment for a packet in progress whose header disagrees with the first fragment seen (last-fragment id, channel or parent leads)" },
         ],
@@ -838,8 +860,10 @@ fn c06_gen_hostile(seed: u64, run: u64, thorough: bool, flood: bool) -> Plan {
     if tail_first {
         plan.params.insert("hostile_tail_frags".into(), *r.pick(&[1.0, 1.0, 2.0, 3.0, 8.0]));
     }
-    plan.params.insert("hostile_focus".into(), if flood { 2.0 } else if tail_first { 3.0 } else { 1.0 });
-    plan.params.insert("hostile_max".into(), if flood { 150_000.0 } else { r.range(100, 3000) as f64 });
+    // every eighth: complete one-fragment packets behind a hole, far beyond the allocation
+    let singles = !flood && run % 8 == 5;
+    plan.params.insert("hostile_focus".into(), if flood { 2.0 } else if tail_first { 3.0 } else if singles { 5.0 } else { 1.0 });
+    plan.params.insert("hostile_max".into(), if flood { 150_000.0 } else if singles { r.range(1000, 6000) as f64 } else { r.range(100, 3000) as f64 });
     plan.end_us = horizon;
     plan.sort();
     plan
@@ -1616,6 +1640,10 @@ fn c19_gen_b(seed: u64, run: u64, thorough: bool) -> Plan {
             }
         }
     }
+    // sometimes the applications look only at the first few events of a step and drop the rest
+    if r.chance(0.3) {
+        plan.params.insert("partial_events_permille".into(), *r.pick(&[100.0, 500.0, 1000.0]));
+    }
     // sometimes the server itself goes away while clients are connected
     if r.chance(0.3) {
         let t = r.range(3_000_000, plan.end_us.max(3_000_001));
@@ -1651,7 +1679,7 @@ pub fn c19() -> CheckDef {
     CheckDef {
         property: "C19",
         families: vec![Family { name: "b_heap", world: "B", weight: 1, gen: c19_gen_b, oracles: c19_oracles, adversary: None, keep_workload: false, custom: None,
-            what: "real Client/Server lifecycles: multi-fragment traffic, disconnects from both sides, Server::drop(), clients destroyed mid-transfer and recreated, the server destroyed with live clients; same allocator oracle" },
+            what: "real Client/Server lifecycles: multi-fragment traffic, disconnects from both sides, Server::drop(), clients destroyed mid-transfer and recreated, the server destroyed with live clients, applications that drop the event iterator of step() after 0-2 events; same allocator oracle" },
         Family { name: "a_heap_hostile", world: "A", weight: 1, gen: c19_gen_hostile, oracles: c19_oracles, adversary: Some(c19_adv), keep_workload: false, custom: None,
             what: "a victim connection against a hostile connected peer (random well-formed frames; never-completing packets; packets announced by their last fragment; complete packets with inconsistent parent leads followed by a walk of the receive window over one slot array and new packets in the same slots), read at any cadence, then dropped; same allocator oracle" },
         Family { name: "a_heap", world: "A", weight: 2, gen: c19_gen, oracles: c19_oracles, adversary: None, keep_workload: false, custom: None,
